@@ -42,6 +42,7 @@ var errStorage = errors.New("verif: injected storage failure")
 // already visited.
 func verifCheckAndAddVisited(ctx context.Context, current relationtuple.Subject) (context.Context, bool) {
 	c, visited := graph.CheckAndAddVisited(ctx, current)
+	verifVisitedCalls++
 	if visited {
 		verifVisitedSkips++
 	}
@@ -285,6 +286,10 @@ func (m *memStore) TraverseSubjectSetExpansion(ctx context.Context, start *relat
 	}
 	if len(res) > m.w.maxWidth {
 		verifWidthHit = true
+		// the engine may follow max-width - 1 of these
+		verifExpandAllowance += m.w.maxWidth - 1
+	} else {
+		verifExpandAllowance += len(res)
 	}
 	return res, nil
 }
